@@ -213,6 +213,9 @@ def history_checks(acc, part, parts):
                         objs[ed[2]].predecessors.remove(objs[ed[1]])
                 except RuntimeError:
                     continue  # the edit is not legal on this structure
+                except Exception as ex:  # noqa
+                    acc.violation('C12', f'critical_path/exception-{type(ex).__name__}/history', f'critical_path() raised {type(ex).__name__}: {ex}', case)
+                    continue
                 ids, par2, links2, durs2, external = abstract_of(w)
                 if external or LY.leaf_cycle(par2, links2):
                     continue  # dependencies on tasks outside the WBS are outside the domain (a removed task stays linked)
